@@ -170,6 +170,8 @@ pub struct LoggedCb {
     pub env: Option<LayerEnv>,
     /// create: names found in the layer directory when the callback started
     pub listing: Option<Vec<OsString>>,
+    /// snapshot of the layer directory as the callback found it
+    pub dir: Option<Snap>,
 }
 
 pub enum Observed {
@@ -624,6 +626,7 @@ impl World {
                 name: None,
                 env: None,
                 listing: None,
+                dir: Snap::take(path).ok(),
             });
         };
         let log_i = |md: &GenericMetadata| {
@@ -634,6 +637,7 @@ impl World {
                 name: None,
                 env: None,
                 listing: None,
+                dir: None,
             });
         };
         let act_r = move || match restored {
@@ -857,6 +861,7 @@ impl<M: MetaT> Layer for SimLayer<'_, M> {
             name: None,
             env: None,
             listing,
+            dir: None,
         });
         self.produce(layer_path)
     }
@@ -873,6 +878,7 @@ impl<M: MetaT> Layer for SimLayer<'_, M> {
             name: Some(layer_data.name.to_string()),
             env: Some(layer_data.env.clone()),
             listing: None,
+            dir: Snap::take(&layer_data.path).ok(),
         });
         match self.strategy {
             Strategy::Keep => Ok(ExistingLayerStrategy::Keep),
@@ -894,6 +900,7 @@ impl<M: MetaT> Layer for SimLayer<'_, M> {
             name: Some(layer_data.name.to_string()),
             env: Some(layer_data.env.clone()),
             listing: None,
+            dir: Snap::take(&layer_data.path).ok(),
         });
         self.produce(&layer_data.path)
     }
@@ -910,6 +917,7 @@ impl<M: MetaT> Layer for SimLayer<'_, M> {
             name: None,
             env: None,
             listing: None,
+            dir: None,
         });
         match self.migration {
             Migration::Recreate => Ok(MetadataMigration::RecreateLayer),
